@@ -119,6 +119,30 @@ def impl_case(case):
                 fail = f'reading the bytes of {m!r} from a track gives {m3!r}'
         except Exception as e:
             fail = f'reading the bytes of {m!r} from a track raised {type(e).__name__}: {e}'
+    if fail is None and len(bs) <= 5000:
+        # the other ways in: from_bytes called on the frozen class / on a frozen instance / on a subclass with its own
+        # __setattr__, and a file opened with clip=True (clipping is about channel and sysex data bytes, never meta payloads)
+        try:
+            from mido.frozen import FrozenMetaMessage, freeze_message
+
+            class Logged(mido.MetaMessage):
+                def __setattr__(self, name, value):
+                    if name.startswith('x_'):
+                        raise AttributeError(name)
+                    super().__setattr__(name, value)
+            for how, f in (('FrozenMetaMessage.from_bytes', FrozenMetaMessage.from_bytes),
+                           ('from_bytes on a frozen instance', freeze_message(m).from_bytes),
+                           ('from_bytes on a subclass of MetaMessage', Logged.from_bytes)):
+                mx = f(bs)
+                if not (mx == m.copy(time=0)):
+                    fail = f'{how}(bytes()) = {mx!r} differs from {m!r}'
+                    break
+            if fail is None:
+                mc = mido.MidiFile(file=io.BytesIO(file_with_event(bs)), clip=True).tracks[0][0]
+                if not (mc == m.copy(time=0)):
+                    fail = f'reading the bytes of {m!r} from a track of a file opened with clip=True gives {mc!r}'
+        except Exception as e:
+            fail = f'decoding the bytes of {m!r} through a frozen class / a subclass / a clip=True file raised {type(e).__name__}: {e}'
     return [line_new, line_bytes, line_fb], fail
 
 
